@@ -1056,7 +1056,13 @@ function_number_t define_new_function (char *name, int num_arg, int num_local, u
   if (exact_types && num_arg)
     {
       *((unsigned short *) mem_block[A_ARGUMENT_INDEX].block + num) = (unsigned short)(mem_block[A_ARGUMENT_TYPES].current_size / sizeof (unsigned short));
-      add_to_mem_block (A_ARGUMENT_TYPES, (char *) type_of_locals_ptr, num_arg * sizeof (*type_of_locals_ptr));
+      /* after "Too many local variables" fewer argument types were stored than the grammar counted */
+      int stored = num_arg > max_num_locals ? max_num_locals : num_arg;
+      lpc_type_t any = TYPE_ANY;
+
+      add_to_mem_block (A_ARGUMENT_TYPES, (char *) type_of_locals_ptr, stored * sizeof (*type_of_locals_ptr));
+      for (; stored < num_arg; stored++)
+        add_to_mem_block (A_ARGUMENT_TYPES, (char *) &any, sizeof (any));
     }
   return (function_number_t)num;
 }
